@@ -55,6 +55,8 @@ def build_value(spec):
         return spec['value']
     if k == 'npscalar':
         return np.dtype(spec['dtype']).type(spec['value'])
+    if k == 'pylist':       # a Python list given as source text (may hold nan / inf / complex / huge ints)
+        return eval(spec['value'], {'nan': float('nan'), 'inf': float('inf')})
     if k == 'obj':
         return [object(), object()]
     if k == 'str':
